@@ -22,6 +22,8 @@ From TucModel Require Import Base.Bytes Base.ListX Model.Bounds Spec.Resolve Pro
   Model.CutBytes Spec.BytesMode Tie.Gen_cut_bytes Tie.Bridge_cut_bytes
   Spec.Fields Proofs.ScanSplit Tie.RsScan Tie.Gen_fill_fields Tie.Bridge_fill_fields Tie.Gen_compress_delimiter Tie.Bridge_compress_delimiter
   Proofs.C01More Tie.Gen_trim Tie.Bridge_trim
+  Tie.Gen_fb_try_from Tie.Bridge_fb_try_from
+  Proofs.Plain Proofs.C16Replace Tie.RsRegex Tie.Gen_maybe_replace Tie.Bridge_maybe_replace
   Model.CutStr Tie.Gen_fast_output_parts Tie.Bridge_fast_output_parts Tie.Gen_fast_cut_record Tie.Bridge_fast_cut_record Proofs.C02
   Proofs.C13 Proofs.C06 Proofs.C03Full Proofs.C19 Proofs.C18Iff.
 Import ListNotations.
@@ -278,7 +280,47 @@ Proof.
   exists k, (trim_right d buffer). split; [rewrite (tie_trim buffer TRight d Hlen); reflexivity | split; assumption].
 Qed.
 
+(** C16 over the translated [maybe_replace_delimiter]: with -e RE -r R a selected text is printed as its
+    fields joined by the literal R; after -p (which has rewritten the runs already) it is printed as it is. *)
+Theorem tie_C16_selected_text_is_rejoined_with_R : forall (o : opt) (x : rx) (nd text : bytes) (ms : list mtch),
+  o_btype o <> BChars -> o_replace o = Some nd -> o_regex o = Some x -> o_compress o = false ->
+  rx_normal x text = Some ms ->
+  gen_maybe_replace text o = Ret (intercalate nd (pieces text (gaps_from 0 ms (length text)))).
+Proof.
+  intros o x nd text ms Hb Hr Hx Hc Hm. apply tie_maybe_replace.
+  apply (maybe_replace_regex_is_intercalate o x nd text ms); assumption.
+Qed.
+
+Theorem tie_C16_after_compress_printed_as_it_is : forall (o : opt) (x : rx) (nd text : bytes),
+  o_replace o = Some nd -> o_regex o = Some x -> o_compress o = true -> gen_maybe_replace text o = Ret text.
+Proof. intros o x nd text Hr Hx Hc. apply tie_maybe_replace. apply (maybe_replace_after_compress o x nd text); assumption. Qed.
+
+(** ... and with a literal delimiter the same function joins the fields with R (C01's replacement clause) *)
+Theorem tie_C01_literal_replacement : forall (o : opt) (nd text : bytes),
+  o_btype o <> BChars -> o_replace o = Some nd -> o_regex o = None ->
+  gen_maybe_replace text o
+  = Ret (intercalate nd (pieces text (gaps_from 0 (lit_matches (o_delim o) text) (length text)))).
+Proof.
+  intros o nd text Hb Hr Hx. apply tie_maybe_replace. unfold maybe_replace. rewrite Hr, Hx, replace_matches_is_intercalate.
+  destruct (o_btype o); try reflexivity. exfalso. apply Hb. reflexivity.
+Qed.
+
+(** C19/C03: the forward-bounds test that [StreamOpt::try_from] relies on (taken from the model there) is
+    the translated [ForwardBounds::try_from]'s: the two accept the same lists, and the translated one
+    never panics on a list that holds a bound *)
+Theorem tie_C19_forward_bounds_test : forall u : ublist, bounds_only (items u) <> [] ->
+  ((exists fb, gen_fb_try_from u = Ret (Some fb)) <-> (exists v, model_forward_try_from u = Ret (Some v))).
+Proof.
+  intros u Hb. rewrite (tie_fb_try_from_accepts u Hb). unfold model_forward_try_from.
+  destruct (forward_bounds_ok (items u)); split; intros H; try reflexivity; try (eexists; reflexivity);
+    first [discriminate H | destruct H as [v H]; discriminate H].
+Qed.
+
 Print Assumptions tie_try_into_range_spec.
+Print Assumptions tie_C19_forward_bounds_test.
+Print Assumptions tie_C16_selected_text_is_rejoined_with_R.
+Print Assumptions tie_C16_after_compress_printed_as_it_is.
+Print Assumptions tie_C01_literal_replacement.
 Print Assumptions tie_C01_trim_left.
 Print Assumptions tie_C01_trim_right.
 Print Assumptions tie_C01_fields_locations.
